@@ -25,7 +25,14 @@ def run(prop, tier, repo):
         ctx = Ctx(prop, tier, prog)
         ctx.note("program", prog.stats())
         mod = importlib.import_module(f"checks.{prop}")
-        explanation, trusted = mod.run(ctx)
+        explanation, trusted = "", []
+        try:
+            explanation, trusted = mod.run(ctx)
+        except AnalysisError as e:
+            # an obligation of the property's own rule set could not be evaluated: recorded as undecided; the rules
+            # that did run and the generic lints still report (a positive violation is not hidden behind it)
+            ctx.unknown(e.rule, e.site, e.reason + " (the remaining rules of this check were not evaluated)")
+            explanation = "incomplete run: " + str(e)
         from vk import generic
         generic.sweep(ctx)
         return finish(ctx, explanation, trusted)
